@@ -7,7 +7,7 @@ import threading
 import vlib
 
 # event codes (harness/cmd/c03/main.go, Corr/C03.v)
-MSG, BAN, UNBAN, BLACK, UNBLACK, EXPIRE, DELETE, RATE, CLOSE, OPEN, REKEY, REGISTER, BADJSON, DELANON, CORRUPT, RESTART, BLACKC, UNBLACKC, BANLAPSE, LAND, SETREC = range(21)
+MSG, BAN, UNBAN, BLACK, UNBLACK, EXPIRE, DELETE, RATE, CLOSE, OPEN, REKEY, REGISTER, BADJSON, DELANON, CORRUPT, RESTART, BLACKC, UNBLACKC, BANLAPSE, LAND, SETREC, WHITE, UNWHITE, BODY, OVERLAP = range(25)
 A, B, E = 1, 2, 3          # clients registered by the setup prefix; E's credentials are expired
 UNKNOWN = 9001
 
@@ -128,8 +128,11 @@ def restart_cases():
     return out
 
 
-def case_of(ops, slots=(1, 2), addrs=(0, 1)):
-    return {"slots": list(slots), "addrs": list(addrs), "ops": ops}
+def case_of(ops, slots=(1, 2), addrs=(0, 1), fam=None):
+    c = {"slots": list(slots), "addrs": list(addrs), "ops": ops}
+    if fam:
+        c["fam"] = {str(k): v for k, v in fam.items()}
+    return c
 
 
 PROBE_GATE = case_of(SETUP2 + [msg(1, A), msg(1, A, key=-2), msg(2, A, tun=1), msg(2, A, key=-2, tun=1), msg(2, B)])
@@ -286,7 +289,9 @@ def enc_ev(op, st):
     if c == REGISTER:
         return [REGISTER]
     if c == OPEN:
-        return [OPEN, op[1], op[2]]
+        return [OPEN, op[1], op[2] + 50 * st.get("ea", 0)]     # a peer whose zone survives extractIP is another address for every gate
+    if c in (WHITE, UNWHITE):
+        return [c, op[1], op[2]]
     if c == BLACK:
         return [BLACK, op[1]]
     if c in (BLACKC, UNBLACKC, RESTART, BANLAPSE, LAND):
@@ -299,9 +304,33 @@ def enc_ev(op, st):
 
 
 def case_value(case, out, variant):
-    steps = out["steps"]
-    obs = [[s["o"][0], s["o"][1], s["o"][2], [list(c) for c in s["c"]], s["i"], s["b"], s["k"], s["f"], s["n"]] for s in steps]
-    return [list(variant), case["slots"], case["addrs"], [enc_ev(op, st) for op, st in zip(case["ops"], steps)], obs]
+    """events and observations in the order in which their effects took place: an overlapped handshake that passed its gate
+    checks first (h=1) completes AFTER the ops that ran in between -> model events: inner ops..., EBody"""
+    ops, steps = case["ops"], out["steps"]
+    seq = []
+    i = 0
+    while i < len(ops):
+        if ops[i][0] == OVERLAP:
+            n = ops[i][1]
+            a = i + 1
+            inner = list(range(i + 2, min(i + 2 + n, len(ops))))
+            if steps[a].get("h"):
+                seq += [(j, False) for j in inner] + [(a, True)]
+            else:
+                seq += [(a, False)] + [(j, False) for j in inner]
+            i += 2 + len(inner)
+        else:
+            seq.append((i, False))
+            i += 1
+    evs, obs = [], []
+    for j, body in seq:
+        e = enc_ev(ops[j], steps[j])
+        if body:
+            e = [BODY] + e[1:]
+        evs.append(e)
+        s = steps[j]
+        obs.append([s["o"][0], s["o"][1], s["o"][2], [list(c) for c in s["c"]], s["i"], s["b"], s["k"], s["f"], s["n"]])
+    return [list(variant), case["slots"], case["addrs"], evs, obs]
 
 
 def shrink(binary, case, key):
@@ -354,7 +383,7 @@ def run(ctx, only_cases=None):
     try:
         pinfo = vlib.coq_properties("C03")
         vlib.proof_coverage(ctx, pinfo, "make -C coq Properties/C03.vo && coqc Properties/C03.v (Print Assumptions audit)",
-                            extra_obligations=3)   # the regenerated side conditions in Proofs/SideC03.v
+                            extra_obligations=4)   # the regenerated side conditions in Proofs/SideC03.v
     except vlib.Broken as b:
         broken = b
     variant = detect_variant(binary)
